@@ -58,6 +58,7 @@ def run(chk: Check, proj: Project) -> None:
     s5_faithful(chk, proj)
     s5b_serialize_order(chk, proj)
     s6_container_loop(chk, proj)
+    s13_close_matches_open(chk, proj)
     s11_builtins_fed_with_tag_text(chk, proj)
     s7_foreign_leaks(chk, proj)
     s8_built_patterns(chk, proj)
@@ -726,6 +727,25 @@ def s11_builtins_fed_with_tag_text(chk: Check, proj: Project) -> None:
                    f"the class name depends on {sorted(deps) or 'constants'} only" if not text_params else
                    f"`{short(c, 70)}` names the class after `{', '.join(sorted(text_params))}`, text taken from the template: `{{% component \"a\\x00b\" %}}` as the first component tag compiled makes type() raise ValueError ('type name must not contain null characters') instead of TemplateSyntaxError")
     chk.floor("S11", n, 1)
+
+
+def s13_close_matches_open(chk: Check, proj: Project) -> None:
+    chk.rule("S13", "a closing token pops the container stack only when the OPEN container is of its kind: the pop in the `]` branch runs under `type == 'list'`, the one in the `}` branch under `type == 'dict'` (stated positively - a guard that only excludes ONE other kind forgets the third state, 'simple', i.e. no container open: the fake root is popped and the next stack[-1] raises IndexError)")
+    m, f = proj.func("util.tag_parser", "parse_tag")
+    want = {"]": "list", "}": "dict"}
+    n = 0
+    for c in [x for x in ast.walk(f) if isinstance(x, ast.Call) and isinstance(x.func, ast.Attribute) and x.func.attr == "pop" and norm(x.func.value) == "stack"]:
+        atoms = cond_atoms(c)
+        tok = next((k for k in want for t, pol in atoms if pol and t.startswith("is_next_token(") and f"'{k}'" in t and "[" not in t.replace(f"['{k}']", "")), None)
+        if tok is None:
+            continue
+        n += 1
+        kind = want[tok]
+        ok = any((t.endswith(f".type == '{kind}'") and pol) or (t.endswith(f".type != '{kind}'") and not pol) for t, pol in atoms)
+        chk.ob("S13", f"util.tag_parser:parse_tag:pop-on-{tok}-requires-open-{kind}@{c.lineno - f.lineno}", m.loc(c), ok,
+               f"`stack.pop()` for `{tok}` runs only if the open container is a {kind}" if ok else
+               f"`stack.pop()` for `{tok}` is not guarded by `type == '{kind}'` (conditions: {[t for t, _p in atoms if 'type' in t]}): a stray `{tok}` with NO container open (`key={tok}`, `items=[1, 2]{tok}`) pops the root struct and the parser dies with IndexError instead of TemplateSyntaxError")
+    chk.floor("S13", n, 2)
 
 
 def s7_foreign_leaks(chk: Check, proj: Project) -> None:
